@@ -83,7 +83,18 @@ impl TreeGen {
             tries += 1;
             let is_default = want_default && out.is_empty();
             let make_branch = (depth < self.max_depth && rng.chance(if depth == 0 { 3 } else { 2 }, 5)) || (depth == 0 && is_default);
-            let name = if is_default && !make_branch && rng.chance(1, 4) { vec![] } else { gen_name(rng) };
+            let name = if is_default && !make_branch && rng.chance(1, 4) {
+                vec![]
+            } else if !out.is_empty() && rng.chance(1, 4) {
+                // numeric-suffixed sibling: same long form as an existing sibling, another suffix (CHANnel1 / CHANnel2 / CHANnel)
+                let base = &out[rng.usize(out.len())].name;
+                let (h, _) = split_suffix(base);
+                let mut v = h.to_vec();
+                v.extend_from_slice(rng.pick(&["", "1", "2", "3", "10", "12"]).as_bytes());
+                if h.is_empty() || v.len() > 12 { gen_name(rng) } else { v }
+            } else {
+                gen_name(rng)
+            };
             if self.unambiguous {
                 let vis = Self::visible(&out);
                 if vis.iter().chain(forbidden.iter()).any(|o| ambiguous_pair(o, &name)) {
